@@ -218,7 +218,9 @@ def check (params lines : List String) : CaseResult := Id.run do
       -- raced the activation and stranded the token, or the request is late): the answer is skipped, the case is judged
       if node == hostTask then r := { r with infos := s!"no request of {node} when the script wanted to answer it: answer skipped" :: r.infos }
       else r := { r with bad := s!"no request of {node} to answer" :: r.bad }
-    | ["obs", "notarrived", pt] => r := { r with bad := s!"nothing parked at {pt}" :: r.bad }
+    | ["obs", "notarrived", pt] =>
+      -- the enforced schedule did not come about (nothing reached the held point in time): the case cannot be judged
+      r := { r with skipped := true, infos := s!"nothing parked at {pt} within the deadline: schedule not enforced, case skipped" :: r.infos }
     | "obs" :: "final" :: rest =>
       final := some ((kvNat rest "complete").getD 0 == 1, (kvNat rest "hostpending").getD 0 == 1, (kvNat rest "pending").getD 0)
     | "obs" :: _ => pure ()
